@@ -29,6 +29,23 @@ type FakeNet struct {
 	inflight  vsched.Group
 	reqCount  int
 	attemptOf map[int]int // controlled thread id -> request attempt it is serving
+	released  bool        // the hung stream open may return
+	relCh     chan struct{}
+}
+
+// HungPeer never answers a stream open until FakeNet.Release is called; GhostPeer is unknown to the network.
+const (
+	HungPeer  = peer.ID("peerHung")
+	GhostPeer = peer.ID("peerGhost")
+)
+
+func (n *FakeNet) Release() {
+	n.mu.Lock()
+	if !n.released {
+		n.released = true
+		close(n.relCh)
+	}
+	n.mu.Unlock()
 }
 
 type Endpoint struct {
@@ -51,6 +68,21 @@ type fakeHost struct {
 
 func (h *fakeHost) ID() peer.ID { return h.ep.ID }
 func (h *fakeHost) NewStream(ctx context.Context, p peer.ID, pids ...protocol.ID) (network.Stream, error) {
+	if p == HungPeer {
+		// a peer that accepts the connection and never completes the handshake: the stream open stays blocked
+		// until the harness releases it (after the other requests have returned)
+		h.ep.net.note("send-hangs")
+		if vsched.Active() {
+			vsched.Block("stream-open-to-hung-peer", func() bool {
+				h.ep.net.mu.Lock()
+				defer h.ep.net.mu.Unlock()
+				return h.ep.net.released
+			})
+		} else {
+			<-h.ep.net.relCh // free-running race pass: real goroutines
+		}
+		return nil, fmt.Errorf("handshake with %s timed out", p)
+	}
 	if _, ok := h.ep.net.eps[p]; !ok {
 		return nil, fmt.Errorf("no route to %s", p)
 	}
@@ -140,7 +172,7 @@ func (n *FakeNet) deliver(from, to peer.ID, proto protocol.ID, data []byte, atte
 }
 
 func NewFakeNet() *FakeNet {
-	return &FakeNet{eps: map[peer.ID]*Endpoint{}, attemptOf: map[int]int{}}
+	return &FakeNet{eps: map[peer.ID]*Endpoint{}, attemptOf: map[int]int{}, relCh: make(chan struct{})}
 }
 
 func (n *FakeNet) AddNode(name string, timeout time.Duration, handlers map[string]p2p.RPCHandler) *Endpoint {
@@ -170,7 +202,9 @@ type P2PScenario struct {
 	Requesters int
 	DupRes     bool
 	Cancel     bool
-	Timeouts   int // how many timeout timers may fire in one execution
+	Timeouts   int  // how many timeout timers may fire in one execution
+	Ghost      bool // one more request goes to a peer the network does not know (the send fails)
+	Hung       bool // one more request goes to a peer whose stream open hangs until all other requests returned
 }
 
 // Body runs the scenario once and reports violations through vsched.Fail.
@@ -205,7 +239,31 @@ func (sc P2PScenario) Body(timeout time.Duration) func() {
 		if sc.Cancel {
 			g.Go("canceller", func() { cancel() })
 		}
+		extra := ""
+		var gx vsched.Group
+		if sc.Ghost {
+			gx.Go("requester-ghost", func() {
+				res := a.MP.RequestFrom(ctx, GhostPeer, "echo", []byte("to-nobody"))
+				if res.Error() == nil {
+					extra = "request to an unknown peer returned no error"
+				}
+			})
+		}
+		if sc.Hung {
+			gx.Go("requester-hung", func() {
+				res := a.MP.RequestFrom(ctx, HungPeer, "echo", []byte("to-hung-peer"))
+				if res.Error() == nil {
+					extra = "request to the hung peer returned no error"
+				}
+			})
+		}
 		g.Wait()
+		// the other requests have returned while the hung send was still pending: only now does it give up
+		net.Release()
+		gx.Wait()
+		if extra != "" {
+			vsched.Fail(extra)
+		}
 		net.inflight.Wait()
 		for i, r := range results {
 			if strings.HasPrefix(r, "WRONG") {
@@ -272,6 +330,8 @@ func P2PScenarios(maxTimeouts int) []P2PScenario {
 		{Name: "duplicate-responses", Requesters: 1, DupRes: true},
 		{Name: "cancelled-request", Requesters: 1, Cancel: true},
 		{Name: "two-requests-duplicate-responses", Requesters: 2, DupRes: true},
+		{Name: "request-with-failing-send", Requesters: 1, Ghost: true},
+		{Name: "request-beside-hung-send", Requesters: 1, Hung: true},
 	}
 	out := []P2PScenario{}
 	for t := 0; t <= maxTimeouts; t++ {
